@@ -639,13 +639,25 @@ func c03NoBlockAbove(db *tsdb.DB, t int64) bool {
 
 // c03Bad counts the verdicts that are not one of the named deviations of the code (known findings, see Crash.tla CKF):
 // only those stop a run early and fail the test; the named ones are matched against known_findings.json by the driver.
-var c03Bad atomic.Int64
+var (
+	c03Bad    atomic.Int64
+	c03KFMu   sync.Mutex
+	c03KFSeen = map[string]int{}
+)
 
 func c03Report(prefix, sig, msg string, c any) {
 	switch {
 	case strings.HasSuffix(sig, "wbl-skipped-after-wal-repair"), strings.HasSuffix(sig, "repair-file-left:acked-sample-lost"),
 		strings.HasSuffix(sig, "deleted-sample-replayed-from-wal"), strings.HasSuffix(sig, "failed-open-changed-undamaged-data:cp"),
-		strings.HasSuffix(sig, "snapshot:acked-sample-lost"):
+		strings.HasPrefix(sig, "snapshot:") && strings.HasSuffix(sig, "acked-sample-lost"):
+		// at most 3 records per named deviation: verifh.Violation stops writing records of ANY signature after 300 calls
+		c03KFMu.Lock()
+		c03KFSeen[prefix+sig]++
+		n := c03KFSeen[prefix+sig]
+		c03KFMu.Unlock()
+		if n > 3 {
+			return
+		}
 	default:
 		c03Bad.Add(1)
 	}
